@@ -48,8 +48,22 @@ def fh(h, m):
     return h['b_fh'][m]
 
 
+def val(h, n):
+    return h['b_val'][n]
+
+
+def den(h, n):
+    """GHOST: the Boolean function node n denotes (an array from assignments to Bool)"""
+    return h['b_den'][n]
+
+
+OP = z3.Function('boolean_operator', I, z3.BoolSort(), z3.BoolSort(), z3.BoolSort())   # a binary operator passed as a value
+INORD = z3.Function('in_order', I, H, H, z3.BoolSort())                                # Ordering.in_order (uninterpreted)
+
+
 def registered(h, n):
-    return z3.And(z3.Not(term(h, n)), fl(h, low(h, n))[n])
+    # (the low child must be an existing object: what lies beyond the allocation counter is not constrained)
+    return z3.And(z3.Not(term(h, n)), low(h, n) >= 0, low(h, n) < h.alloc, h['b_node'][low(h, n)], fl(h, low(h, n))[n])
 
 
 def triple(h, n, v, lo, hi):
@@ -60,9 +74,9 @@ def inv(h, exclude=None):
     """exclude: an allocated but not yet initialised object (between object.__new__ and __reset__)"""
     m, n = z3.Ints('m!inv n!inv')
     if exclude is None:
-        ok = lambda x: z3.And(x >= 0, x < h.alloc)     # noqa
+        ok = lambda x: z3.And(x >= 0, x < h.alloc, h['b_node'][x])     # noqa
     else:
-        ok = lambda x: z3.And(x >= 0, x < h.alloc, x != exclude)     # noqa
+        ok = lambda x: z3.And(x >= 0, x < h.alloc, h['b_node'][x], x != exclude)     # noqa
     return z3.And(
         hp.FA([m, n], z3.Implies(z3.And(ok(m), fl(h, m)[n]),
                                  z3.And(ok(n), z3.Not(term(h, n)), low(h, n) == m, ok(high(h, n)), fh(h, high(h, n))[n],
@@ -72,6 +86,32 @@ def inv(h, exclude=None):
                                         low(h, n) != high(h, n))), [fh(h, m)[n]]),
         z3.ForAll([m, n], z3.Implies(z3.And(ok(m), ok(n), ok(low(h, m)), registered(h, m), registered(h, n),
                                             var(h, m) == var(h, n), low(h, m) == low(h, n), high(h, m) == high(h, n)), m == n)))
+
+
+def node_ok(h, n):
+    """an existing node object that went through a constructor"""
+    return z3.And(n >= 0, n < h.alloc, h['b_node'][n], z3.Or(term(h, n), registered(h, n)))
+
+
+def den_inv(h, exclude=None):
+    """GHOST invariant: the denotation stored with every constructed node is the Shannon expansion of its
+    children's (non-terminals) or its constant (terminals)"""
+    n = z3.Int('n!den')
+    sg = z3.Const('sigma!den', hp.SetH)
+    ok = z3.And(n >= 0, n < h.alloc, h['b_node'][n]) if exclude is None else z3.And(n >= 0, n < h.alloc, h['b_node'][n], n != exclude)
+    okl = z3.BoolVal(True) if exclude is None else (low(h, n) != exclude)
+    return z3.And(
+        z3.ForAll([n, sg], z3.Implies(z3.And(ok, okl, registered(h, n)),
+                                      den(h, n)[sg] == z3.If(sg[var(h, n)], den(h, high(h, n))[sg], den(h, low(h, n))[sg])),
+                  patterns=[den(h, n)[sg]]),
+        z3.ForAll([n, sg], z3.Implies(z3.And(ok, term(h, n)), den(h, n)[sg] == val(h, n)), patterns=[den(h, n)[sg]]))
+
+
+def children_ok(h):
+    """children of constructed non-terminals are constructed nodes (follows the table invariant's shape)"""
+    n = z3.Int('n!ch')
+    return z3.ForAll([n], z3.Implies(z3.And(n >= 0, n < h.alloc, h['b_node'][n], registered(h, n)),
+                                     z3.And(node_ok(h, low(h, n)), node_ok(h, high(h, n)))), patterns=[low(h, n), high(h, n)])
 
 
 class BddExt(Extension):
@@ -104,6 +144,10 @@ class BddExt(Extension):
                 return SV('wset', None, ('b_fl', base.t))
             if attr == 'f_high':
                 return SV('wset', None, ('b_fh', base.t))
+            if attr == 'value':
+                return SV('bool', val(h, base.t))
+            return SV('bound', None, (base, attr))
+        if base.ty == 'ordering':
             return SV('bound', None, (base, attr))
         if base.ty == 'wset':
             return SV('bound', None, (base, attr))
@@ -129,6 +173,49 @@ class BddExt(Extension):
         E.check_write(ex, (comp, base.t), path, st)
         path.heap = h.with_(**{comp: z3.Store(h[comp], base.t, val)})
         return True
+
+    def member(self, E, ex, a, b, path, node):
+        if self.on(ex) and a.ty == 'bnode' and b.ty in ('refdict', 'refdict2'):
+            return path.heap['rd_dom'][b.t][a.t]
+        return None
+
+    def subscript(self, E, ex, base, idx, path, node):
+        if self.on(ex) and base.ty in ('refdict', 'refdict2') and idx.ty == 'bnode':
+            h = path.heap
+            ex.may_raise('KeyError', z3.Not(h['rd_dom'][base.t][idx.t]), path, node)
+            return SV('bnode' if base.ty == 'refdict' else 'refdict', h['rd_val'][base.t][idx.t])
+        return None
+
+    def assign_subscript(self, E, ex, base, idx, v, path, st):
+        if not self.on(ex) or base.ty not in ('refdict', 'refdict2') or idx.ty != 'bnode':
+            return False
+        if v.ty != ('bnode' if base.ty == 'refdict' else 'refdict'):
+            raise Unsupported('cache entry of type %s' % v.ty)
+        h = path.heap
+        E.check_write(ex, ('rd_dom', base.t), path, st)
+        path.heap = h.with_(rd_dom=z3.Store(h['rd_dom'], base.t, z3.Store(h['rd_dom'][base.t], idx.t, True)),
+                            rd_val=z3.Store(h['rd_val'], base.t, z3.Store(h['rd_val'][base.t], idx.t, v.t)))
+        return True
+
+    def param_value(self, E, ex, name, ty, heap, pc):
+        if ty == 'boolop':
+            return SV('boolop', hp.fresh(name, I))
+        if ty == 'ordering':
+            return SV('ordering', hp.fresh(name, I))
+        if ty == 'cls':
+            return SV('str')
+        return None
+
+    def call_value(self, E, ex, fn, args, kwargs, path, node):
+        if not self.on(ex):
+            return None
+        if fn.ty == 'boolop' and len(args) == 2 and all(a.ty == 'bool' for a in args):
+            return SV('bool', OP(fn.t, args[0].t, args[1].t))
+        if fn.ty == 'bclass' and fn.x == 'BDDNonTerminalNode' and len(args) == 3:
+            return E.call_contract(ex, 'BDDNonTerminalNode.__new__', [SV('str')] + args, kwargs, path, node)
+        if fn.ty == 'bclass' and fn.x == 'BDDTerminalNode' and len(args) == 1 and args[0].ty == 'bool':
+            return E.call_contract(ex, 'BDDTerminalNode.__new__', [SV('str')] + args, kwargs, path, node)
+        return None
 
     def isinstance(self, E, ex, a, cls, path, node):
         if not self.on(ex) or a.ty not in ('bnode',) or cls.ty != 'bclass':
@@ -159,6 +246,11 @@ class BddExt(Extension):
             return hp.NONE
         if base.ty == 'bnode' and attr == '__reset__':
             return E.call_contract(ex, 'BDDNonTerminalNode.__reset__', [base] + args, kwargs, path, node)
+        if base.ty == 'bnode' and attr == '__invert__':
+            # dynamic dispatch: both bodies (terminal / non-terminal) are verified against the same clauses
+            return E.call_contract(ex, 'BDDNonTerminalNode.__invert__', [base] + args, kwargs, path, node)
+        if base.ty == 'ordering' and attr == 'in_order' and len(args) == 2 and all(a.ty == 'H' for a in args):
+            return SV('bool', INORD(base.t, args[0].t, args[1].t))
         return None
 
     def super_call(self, E, ex, cls, attr, node, path):
@@ -168,7 +260,7 @@ class BddExt(Extension):
             # object.__new__(cls): a new object, registered nowhere, fields unset
             r, h = path.heap.new()
             # isinstance(node, BDDNonTerminalNode) is decided by the class: cls is that class
-            path.heap = h.with_(b_term=z3.Store(h['b_term'], r, z3.BoolVal(False)))
+            path.heap = h.with_(b_term=z3.Store(h['b_term'], r, z3.BoolVal(False)), b_node=z3.Store(h['b_node'], r, z3.BoolVal(True)))
             return SV('bnode', r)
         if attr == '__reset__' and cls == 'BDDNonTerminalNode':
             recv = ex.ev(node.func.value.args[1], path)
@@ -196,10 +288,10 @@ def install(E):
     ext = BddExt()
     E.ext.append(ext)
     common = {'ext': 'bdd'}
-    BT = {'b_var', 'b_low', 'b_high', 'b_fl', 'b_fh', 'b_term'}
+    BT = {'b_var', 'b_low', 'b_high', 'b_fl', 'b_fh', 'b_term', 'b_den', 'b_node'}
 
     def valid(h, n):
-        return z3.And(n >= 0, n < h.alloc)
+        return z3.And(n >= 0, n < h.alloc, h['b_node'][n])
 
     # -- find_isomorph -------------------------------------------------------------
     def fi_req(c):
@@ -258,7 +350,8 @@ def install(E):
                 ('children_differ', lo != hi), ('children_are_not_self', z3.And(lo != s_, hi != s_)),
                 ('self_unregistered', z3.ForAll([m], z3.Implies(z3.And(valid(h, m), m != s_), z3.And(z3.Not(fl(h, m)[s_]), z3.Not(fh(h, m)[s_]))))),
                 ('self_is_a_non_terminal', z3.Not(term(h, s_))),
-                ('no_isomorph', z3.ForAll([m], z3.Implies(z3.And(valid(h, m), m != s_, registered(h, m)), z3.Not(triple(h, m, c.var.t, lo, hi)))))]
+                ('no_isomorph', z3.ForAll([m], z3.Implies(z3.And(valid(h, m), m != s_, registered(h, m)), z3.Not(triple(h, m, c.var.t, lo, hi))))),
+                ('ghost_denotations', den_inv(h, exclude=s_))]
 
     def reset_ens(c):
         h0, h1, s_, lo, hi = c.h0, c.h1, c.self.t, c.low.t, c.high.t
@@ -272,7 +365,22 @@ def install(E):
             ('other_fields_kept', z3.ForAll([n], z3.Implies(z3.And(valid(h0, n), n != s_),
                                                            z3.And(var(h1, n) == var(h0, n), low(h1, n) == low(h0, n),
                                                                   high(h1, n) == high(h0, n), term(h1, n) == term(h0, n))))),
+            ('ghost_denotations', den_inv(h1)),
+            ('ghost_denotation_of_self', shannon(h1, s_, c.var.t, lo, hi)),
         ]
+
+    def shannon(h, n, v, lo, hi):
+        sg = z3.Const('sigma!sh', hp.SetH)
+        return z3.ForAll([sg], den(h, n)[sg] == z3.If(sg[v], den(h, hi)[sg], den(h, lo)[sg]), patterns=[den(h, n)[sg]])
+
+    def reset_ghost(c, p):
+        # GHOST code at the exit of BDDNonTerminalNode.__reset__: record what the node now denotes
+        h = p.heap
+        s_, lo, hi = c.self.t, c.low.t, c.high.t
+        D = hp.fresh('den_of_new_node', z3.ArraySort(hp.SetH, z3.BoolSort()))
+        sg = z3.Const('sigma!gh', hp.SetH)
+        p.pc.append(z3.ForAll([sg], D[sg] == z3.If(sg[c.var.t], den(h, hi)[sg], den(h, lo)[sg]), patterns=[D[sg]]))
+        p.heap = h.with_(b_den=z3.Store(h['b_den'], s_, D))
 
     def reg_clause(c, comp, child):
         h0, h1, s_ = c.h0, c.h1, c.self.t
@@ -285,6 +393,19 @@ def install(E):
         return [lambda c, path: reg_clause(c, 'b_fl', c.low.t), lambda c, path: reg_clause(c, 'b_fh', c.high.t),
                 lambda c, path: fields_kept(c)]
 
+    def den_kept(c):
+        h0, h1, s_ = c.h0, c.h1, c.self.t
+        n = R()
+        return hp.FA([n], z3.Implies(z3.And(n != s_, n >= 0, n < h0.alloc), den(h1, n) == den(h0, n)), [den(h1, n)])
+
+    def old_registered(c):
+        h0, h1, s_ = c.h0, c.h1, c.self.t
+        n = R()
+        return hp.FA([n], z3.Implies(z3.And(n != s_, n >= 0, n < h0.alloc, registered(h1, n)),
+                                     z3.And(registered(h0, n), low(h0, n) != s_, high(h0, n) != s_,
+                                            low(h0, n) >= 0, low(h0, n) < h0.alloc, high(h0, n) >= 0, high(h0, n) < h0.alloc)),
+                     [low(h1, n)])
+
     def fields_kept(c):
         h0, h1, s_ = c.h0, c.h1, c.self.t
         n = R()
@@ -295,7 +416,7 @@ def install(E):
     def reset_frame(c):
         from .contracts_graph import frame
         s_, lo, hi = c.self.t, c.low.t, c.high.t
-        return frame(c.h0, c.h1, c.h0.alloc, {'b_var': lambda r: r == s_, 'b_low': lambda r: r == s_, 'b_high': lambda r: r == s_,
+        return frame(c.h0, c.h1, c.h0.alloc, {'b_var': lambda r: r == s_, 'b_low': lambda r: r == s_, 'b_high': lambda r: r == s_, 'b_den': lambda r: r == s_,
                                               'b_fl': lambda r: z3.Or(r == s_, r == lo), 'b_fh': lambda r: z3.Or(r == s_, r == hi)})
 
     def reset_may_write(c, comp, ref):
@@ -311,12 +432,16 @@ def install(E):
     E.register(Contract(
         'BDDNonTerminalNode.__reset__', 'bdd', [('self', 'bnode'), ('var', 'H'), ('low', 'bnode'), ('high', 'bnode')], ret='none',
         requires=reset_req, ensures=reset_ens, frame=reset_frame, may_write=reset_may_write,
-        touches=set(BT), hints=dict(common, cuts={'ensures:table_invariant': reset_cuts()}), owner='C16'), FILE)
+        touches=set(BT), hints=dict(common, cuts={'ensures:table_invariant': reset_cuts(),
+                                           'ensures:ghost_denotations': reset_cuts() + [lambda c, path: den_kept(c), lambda c, path: old_registered(c)]},
+                                    ghost_exit=reset_ghost), owner='C16'), FILE)
 
     # -- BDDNonTerminalNode.__new__ -----------------------------------------------------------
     def new_req(c):
         h = c.h0
-        return [('table_invariant', inv(h)), ('low_valid', valid(h, c.low.t)), ('high_valid', valid(h, c.high.t))]
+        return [('table_invariant', inv(h)), ('low_valid', valid(h, c.low.t)), ('high_valid', valid(h, c.high.t)),
+                ('ghost_denotations', den_inv(h)), ('children_are_nodes', children_ok(h)),
+                ('operands_are_nodes', z3.And(node_ok(h, c.low.t), node_ok(h, c.high.t)))]
 
     def new_ens(c):
         h0, h1, r, lo, hi = c.h0, c.h1, c.res.t, c.low.t, c.high.t
@@ -326,9 +451,15 @@ def install(E):
             ('reduction', z3.Implies(lo == hi, r == lo)),
             ('the_node_with_the_triple', z3.Implies(lo != hi, z3.And(valid(h1, r), registered(h1, r), triple(h1, r, c.var.t, lo, hi)))),
             ('old_nodes_kept', z3.ForAll([n], z3.Implies(valid(h0, n), z3.And(var(h1, n) == var(h0, n), low(h1, n) == low(h0, n),
-                                                                             high(h1, n) == high(h0, n), term(h1, n) == term(h0, n))))),
+                                                                             high(h1, n) == high(h0, n), term(h1, n) == term(h0, n),
+                                                                             h1['b_node'][n], den(h1, n) == den(h0, n), val(h1, n) == val(h0, n))))),
             ('old_registrations_kept', z3.ForAll([m, n], z3.Implies(z3.And(valid(h0, m), valid(h0, n)),
                                                                     z3.And(fl(h1, m)[n] == fl(h0, m)[n], fh(h1, m)[n] == fh(h0, m)[n])))),
+            ('ghost_denotations', den_inv(h1)),
+            ('ghost_denotes_the_shannon_expansion', shannon(h1, r, c.var.t, lo, hi)),
+            ('children_are_nodes', children_ok(h1)),
+            ('result_is_a_node', node_ok(h1, r)),
+            ('old_nodes_stay_nodes', z3.ForAll([n], z3.Implies(node_ok(h0, n), node_ok(h1, n)), patterns=[low(h1, n)])),
         ]
 
     def new_frame(c):
@@ -341,4 +472,188 @@ def install(E):
         requires=new_req, ensures=new_ens, frame=new_frame,
         may_write=lambda c, comp, ref: (ref == c.low.t) if comp == 'b_fl' else ((ref == c.high.t) if comp == 'b_fh' else None),
         touches=set(BT), hints=dict(common), owner='C16'), FILE)
+    # =====================================================================================================
+    # C17: the operations compute the right function (denotation = GHOST component b_den)
+    # =====================================================================================================
+    SG = z3.Const('sigma!op', hp.SetH)
+    DT = set(BT) | {'rd_dom', 'rd_val', 'b_val'}
+
+    def node_state(h):
+        return [('table_invariant', inv(h)), ('ghost_denotations', den_inv(h)), ('children_are_nodes', children_ok(h))]
+
+    def nodes_kept(h0, h1):
+        """constructed nodes stay as they are: fields, constants, denotations, registrations among old objects"""
+        m, n = R('m'), R()
+        return [('old_nodes_kept', z3.ForAll([n], z3.Implies(valid(h0, n), z3.And(
+                    var(h1, n) == var(h0, n), low(h1, n) == low(h0, n), high(h1, n) == high(h0, n), term(h1, n) == term(h0, n),
+                    val(h1, n) == val(h0, n), den(h1, n) == den(h0, n), h1['b_node'][n])), patterns=[den(h1, n)])),
+                ('old_nodes_stay_nodes', z3.ForAll([n], z3.Implies(node_ok(h0, n), node_ok(h1, n)), patterns=[low(h1, n)])),
+                ('alloc', h1.alloc >= h0.alloc)]
+
+    # -- BDDTerminalNode.__new__: ASSUMED (class-level dictionary Tnodes keyed by 0/1/False/True) -----------
+    def tnew_ens(c):
+        h1, r = c.h1, c.res.t
+        return node_state(h1) + nodes_kept(c.h0, h1) + [
+            ('the_constant_node', z3.And(valid(h1, r), term(h1, r), val(h1, r) == c.value.t))]
+
+    E.register(Contract(
+        'BDDTerminalNode.__new__', 'bdd', [('cls', 'str'), ('value', 'bool')], ret='bnode',
+        requires=lambda c: node_state(c.h0), ensures=tnew_ens, touches=set(DT), hints=dict(common), owner='C17', assumed=True,
+        note='ASSUMED: returns the terminal node of the Boolean value (one per value, kept in the class-level dictionary Tnodes, '
+             'which is not modelled); constructed nodes are left as they are'), FILE)
+
+    # -- __invert__ (both classes, one specification) ---------------------------------------------------------
+    def inv_cache_ok(h, d):
+        k = R('k')
+        return z3.ForAll([k], z3.Implies(h['rd_dom'][d][k], z3.And(
+            node_ok(h, k), node_ok(h, h['rd_val'][d][k]),
+            z3.ForAll([SG], den(h, h['rd_val'][d][k])[SG] == z3.Not(den(h, k)[SG])))), patterns=[h['rd_dom'][d][k]])
+
+    def cache_of(c):
+        """(given, ref): the optional cache argument"""
+        a = c.r_cache
+        if a.ty == 'opt':
+            return z3.Not(a.x[0]), a.x[1].t
+        return z3.BoolVal(True), a.t
+
+    def invert_req(c):
+        h = c.h0
+        given, d = cache_of(c)
+        return node_state(h) + [('self_is_a_node', node_ok(h, c.self.t)),
+                                ('cache_valid', z3.Implies(given, z3.And(d >= 0, d < h.alloc))),
+                                ('cache_entries_are_complements', z3.Implies(given, inv_cache_ok(h, d)))]
+
+    def invert_ens(c):
+        h0, h1, r = c.h0, c.h1, c.res.t
+        given, d = cache_of(c)
+        return node_state(h1) + nodes_kept(h0, h1) + [
+            ('result_is_a_node', node_ok(h1, r)),
+            ('denotes_the_complement', z3.ForAll([SG], den(h1, r)[SG] == z3.Not(den(h1, c.self.t)[SG]), patterns=[den(h1, r)[SG]])),
+            ('cache_entries_are_complements', z3.Implies(given, inv_cache_ok(h1, d)))]
+
+    def cache_frame(cache_ref_of):
+        def fr(c):
+            from .contracts_graph import frame
+            given, d = cache_ref_of(c)
+            own = lambda r: z3.And(given, r == d)       # noqa
+            anyref = lambda r: z3.BoolVal(True)         # noqa  (parent sets of existing nodes grow when a node is built on them)
+            return frame(c.h0, c.h1, c.h0.alloc, {'rd_dom': own, 'rd_val': own, 'b_fl': anyref, 'b_fh': anyref})
+        return fr
+
+    def cache_may_write(cache_ref_of):
+        def mw(c, comp, ref):
+            given, d = cache_ref_of(c)
+            if comp in ('rd_dom', 'rd_val'):
+                return z3.And(given, ref == d)
+            return None
+        return mw
+
+    for cls in ('BDDNonTerminalNode', 'BDDTerminalNode'):
+        E.register(Contract(
+            '%s.__invert__' % cls, 'bdd', [('self', 'bnode'), ('r_cache', 'opt:refdict')], ret='bnode',
+            requires=(lambda c, cls=cls: invert_req(c) + [('receiver_class', term(c.h0, c.self.t) if cls == 'BDDTerminalNode'
+                                                           else z3.Not(term(c.h0, c.self.t)))]) if False else
+                     (lambda c, cls=cls: invert_req(c) + ([('receiver_class', (term(c.h0, c.self.t) if cls == 'BDDTerminalNode'
+                                                                             else z3.Not(term(c.h0, c.self.t))))] if c.side == 'callee' else [])),
+            ensures=invert_ens, frame=cache_frame(cache_of), may_write=cache_may_write(cache_of),
+            touches=set(DT), hints=dict(common, dict_kind_default='refdict'), owner='C17'), FILE)
+
+    # -- restrict: cache_restrict / compute_restrict -------------------------------------------------------------
+    def upd(sg, c):
+        return z3.Store(sg, c.var.t, c.value.t)
+
+    def r_cache_ok(h, d, c):
+        k = R('k')
+        return z3.ForAll([k], z3.Implies(h['rd_dom'][d][k], z3.And(
+            node_ok(h, k), node_ok(h, h['rd_val'][d][k]),
+            z3.ForAll([SG], den(h, h['rd_val'][d][k])[SG] == den(h, k)[upd(SG, c)]))), patterns=[h['rd_dom'][d][k]])
+
+    def rcache_of(c):
+        return z3.BoolVal(True), c.r_cache.t
+
+    def restrict_req(c):
+        h = c.h0
+        return node_state(h) + [('bdd_is_a_node', node_ok(h, c.bdd.t)),
+                                ('cache_entries_are_cofactors', r_cache_ok(h, c.r_cache.t, c))]
+
+    def restrict_ens(c):
+        h0, h1, r = c.h0, c.h1, c.res.t
+        return node_state(h1) + nodes_kept(h0, h1) + [
+            ('result_is_a_node', node_ok(h1, r)),
+            ('denotes_the_cofactor', z3.ForAll([SG], den(h1, r)[SG] == den(h1, c.bdd.t)[upd(SG, c)], patterns=[den(h1, r)[SG]])),
+            ('cache_entries_are_cofactors', r_cache_ok(h1, c.r_cache.t, c))]
+
+    for fn in ('cache_restrict', 'compute_restrict'):
+        E.register(Contract(
+            fn, 'bdd', [('bdd', 'bnode'), ('var', 'H'), ('value', 'bool'), ('r_cache', 'refdict')], ret='bnode',
+            requires=restrict_req, ensures=restrict_ens, frame=cache_frame(rcache_of), may_write=cache_may_write(rcache_of),
+            touches=set(DT), hints=dict(common), owner='C17'), FILE)
+
+    # -- apply / compute / the three decompositions ----------------------------------------------------------------
+    def a_cache_ok(h, d, op):
+        a, b = R('a'), R('b')
+        e = h['rd_val'][d][a]
+        a2 = R('a2')
+        return z3.And(
+            z3.ForAll([a], z3.Implies(h['rd_dom'][d][a], z3.And(e >= 0, e < h.alloc, e != d)), patterns=[h['rd_dom'][d][a]]),
+            z3.ForAll([a, a2], z3.Implies(z3.And(h['rd_dom'][d][a], h['rd_dom'][d][a2], a != a2),
+                                          h['rd_val'][d][a] != h['rd_val'][d][a2])),
+            z3.ForAll([a, b], z3.Implies(z3.And(h['rd_dom'][d][a], h['rd_dom'][e][b]), z3.And(
+                node_ok(h, a), node_ok(h, b), node_ok(h, h['rd_val'][e][b]),
+                z3.ForAll([SG], den(h, h['rd_val'][e][b])[SG] == OP(op, den(h, a)[SG], den(h, b)[SG])))),
+                patterns=[z3.MultiPattern(h['rd_dom'][d][a], h['rd_dom'][e][b])]))
+
+    def apply_req(c):
+        h = c.h0
+        return node_state(h) + [('A_is_a_node', node_ok(h, c.A.t)), ('B_is_a_node', node_ok(h, c.B.t)),
+                                ('cache_valid', z3.And(c.r_cache.t >= 0, c.r_cache.t < h.alloc)),
+                                ('cache_entries_are_results', a_cache_ok(h, c.r_cache.t, c.operator.t))]
+
+    def apply_ens(c):
+        h0, h1, r = c.h0, c.h1, c.res.t
+        return node_state(h1) + nodes_kept(h0, h1) + [
+            ('result_is_a_node', node_ok(h1, r)),
+            ('denotes_the_combination', z3.ForAll([SG], den(h1, r)[SG] == OP(c.operator.t, den(h1, c.A.t)[SG], den(h1, c.B.t)[SG]),
+                                                  patterns=[den(h1, r)[SG]])),
+            ('cache_entries_are_results', a_cache_ok(h1, c.r_cache.t, c.operator.t)),
+            ('cache_rows_kept', z3.ForAll([R('a')], z3.BoolVal(True)) if False else cache_rows_kept(h0, h1, c.r_cache.t))]
+
+    def cache_rows_kept(h0, h1, d):
+        a = R('a')
+        return z3.ForAll([a], z3.Implies(h0['rd_dom'][d][a], z3.And(h1['rd_dom'][d][a], h1['rd_val'][d][a] == h0['rd_val'][d][a])),
+                         patterns=[h0['rd_dom'][d][a], h1['rd_dom'][d][a]])
+
+    def acache_of(c):
+        return z3.BoolVal(True), c.r_cache.t
+
+    def apply_frame(c):
+        # (nothing is claimed about OTHER dictionaries: the rows of the cache are dictionaries themselves and
+        #  "is a row of this cache" is an existential the proofs do not need; C17 does not speak about them)
+        from .contracts_graph import frame
+        anyref = lambda r: z3.BoolVal(True)                                         # noqa
+        return frame(c.h0, c.h1, c.h0.alloc, {'rd_dom': anyref, 'rd_val': anyref, 'b_fl': anyref, 'b_fh': anyref})
+
+    def apply_may_write(c, comp, ref):
+        if comp in ('rd_dom', 'rd_val'):
+            return z3.BoolVal(True)
+        return None
+
+    APARAMS = [('operator', 'boolop'), ('A', 'bnode'), ('B', 'bnode'), ('ordering', 'ordering'), ('r_cache', 'refdict2')]
+    for fn in ('apply', 'compute', 'BDDsons_and_BDD', 'BDD_and_BDDsons', 'BDDsons_and_BDDsons'):
+        extra = []
+        if fn == 'BDDsons_and_BDD':
+            extra = lambda c: [('A_is_a_non_terminal', z3.Not(term(c.h0, c.A.t)))]                       # noqa
+        elif fn == 'BDD_and_BDDsons':
+            extra = lambda c: [('B_is_a_non_terminal', z3.Not(term(c.h0, c.B.t)))]                       # noqa
+        elif fn == 'BDDsons_and_BDDsons':
+            extra = lambda c: [('A_is_a_non_terminal', z3.Not(term(c.h0, c.A.t))), ('B_is_a_non_terminal', z3.Not(term(c.h0, c.B.t))),
+                               ('same_variable', var(c.h0, c.A.t) == var(c.h0, c.B.t))]                 # noqa
+        else:
+            extra = lambda c: []                                                                          # noqa
+        E.register(Contract(
+            fn, 'bdd', APARAMS, ret='bnode',
+            requires=lambda c, extra=extra: apply_req(c) + extra(c), ensures=apply_ens, frame=apply_frame, may_write=apply_may_write,
+            touches=set(DT), hints=dict(common, dict_kind_default='refdict', may_raise=('RuntimeError',)),
+            raise_unchanged=False, owner='C17'), FILE)
+
     return ['find_isomorph', 'BDDNode.__reset__', 'BDDNonTerminalNode.__reset__', 'BDDNonTerminalNode.__new__']
